@@ -25,6 +25,7 @@ type evalCtx struct {
 	inOld    bool
 	clause   *Clause
 	useParams bool
+	paramsFirst bool // postconditions: parameters denote entry values and shadow locals
 }
 
 func (e *Enc) ctxEntry(st *State) *evalCtx {
@@ -46,7 +47,13 @@ func (e *Enc) ctxAt(st *State, b *ssa.BasicBlock, idx int) *evalCtx {
 }
 
 func (e *Enc) ctxReturn(st *State, ret *ssa.Return) *evalCtx {
-	c := &evalCtx{e: e, st: st, old: e.init, bind: map[string]TV{}, noLocals: true, useParams: true}
+	c := &evalCtx{e: e, st: st, old: e.init, bind: map[string]TV{}, useParams: true, paramsFirst: true}
+	c.block = ret.Block()
+	for i, ins := range c.block.Instrs {
+		if ins == ssa.Instruction(ret) {
+			c.idx = i
+		}
+	}
 	var results []TV
 	for _, r := range ret.Results {
 		results = append(results, TV{T: e.term(r), Typ: r.Type(), Sort: e.st.sortOf(r.Type())})
@@ -93,7 +100,24 @@ func (c *evalCtx) lookup(name string) (TV, bool) {
 	if tv, ok := c.bind[name]; ok {
 		return tv, true
 	}
-	if !c.noLocals && !c.inOld {
+	if c.paramsFirst && c.useParams {
+		if tv, ok := e.params[name]; ok {
+			return tv, true
+		}
+	}
+	if c.inOld && c.stepOf != nil {
+		// old(x) in a step clause: the value of x at the start of the iteration
+		for _, ins := range c.stepOf.header.Instrs {
+			phi, ok := ins.(*ssa.Phi)
+			if !ok {
+				break
+			}
+			if phi.Comment == name {
+				return TV{T: e.term(phi), Typ: phi.Type(), Sort: e.st.sortOf(phi.Type())}, true
+			}
+		}
+	}
+	if !c.noLocals {
 		if tv, ok := c.lookupLocal(name); ok {
 			return tv, true
 		}
@@ -170,11 +194,18 @@ func (c *evalCtx) lookupLocal(name string) (TV, bool) {
 					if l == nil {
 						continue
 					}
-					v, t := e.load(l, c.st)
+					v, t := e.load(l, c.cur())
 					if t == nil {
 						t = deref(ins.X.Type())
 					}
 					return TV{T: v, Typ: t, Sort: e.st.sortOf(t)}, true
+				}
+				if _, isC := ins.X.(*ssa.Const); isC {
+					// a declaration's DebugRef may show the zero value although the variable is
+					// initialised right after it: prefer the single non-constant value if there is one
+					if v := e.singleValueOf(obj); v != nil && e.dominatesPoint(v, c.block) {
+						return TV{T: e.term(v), Typ: v.Type(), Sort: e.st.sortOf(v.Type())}, true
+					}
 				}
 				if _, known := e.val[ins.X]; !known {
 					if _, isC := ins.X.(*ssa.Const); !isC {
@@ -191,7 +222,7 @@ func (c *evalCtx) lookupLocal(name string) (TV, bool) {
 			case *ssa.Alloc:
 				if ins.Comment == name {
 					l := e.lvalOf(ins)
-					v, t := e.load(l, c.st)
+					v, t := e.load(l, c.cur())
 					if t == nil {
 						t = deref(ins.Type())
 					}
@@ -396,7 +427,7 @@ func (c *evalCtx) evalBin(x *EBin) TV {
 		if a.Sort != b.Sort {
 			c.fail("comparison between sorts %s and %s in %s", a.Sort, b.Sort, x.String())
 		}
-		if a.Sort == "Str" {
+		if a.Sort == "Str" && len(c.qvars) == 0 {
 			e.strExt(a.T, b.T)
 		}
 		t := fmt.Sprintf("(= %s %s)", a.T, b.T)
@@ -520,12 +551,15 @@ func (c *evalCtx) evalIndex(x *EIndex) TV {
 	e := c.e
 	v := c.eval(x.X)
 	i := c.eval(x.I)
+	if v.Typ == nil && v.Sort == "Str" {
+		v.Typ = types.Typ[types.String]
+	}
 	if v.Typ != nil {
 		switch u := v.Typ.Underlying().(type) {
 		case *types.Slice:
 			k, ks := e.elemsKey(u.Elem())
 			i = c.coerce(i, c.intTV(""))
-			return TV{T: fmt.Sprintf("(select (select %s (sl.arr %s)) (idx.add (sl.off %s) %s))", e.get(c.cur(), k, ks), v.T, v.T, i.T), Typ: u.Elem(), Sort: e.st.sortOf(u.Elem())}
+			return TV{T: e.slGet(u.Elem(), fmt.Sprintf("(select %s (sl.arr %s))", e.get(c.cur(), k, ks), v.T), fmt.Sprintf("(sl.off %s)", v.T), i.T), Typ: u.Elem(), Sort: e.st.sortOf(u.Elem())}
 		case *types.Basic:
 			if v.Sort == "Str" {
 				return TV{T: fmt.Sprintf("(gs.at %s %s)", v.T, i.T), Typ: types.Typ[types.Uint8], Sort: e.st.byteSort()}
@@ -543,6 +577,8 @@ func (c *evalCtx) evalIndex(x *EIndex) TV {
 		var typ types.Type
 		if es == e.st.idx() {
 			typ = types.Typ[types.Int]
+		} else if es == "Str" {
+			typ = types.Typ[types.String]
 		}
 		return TV{T: fmt.Sprintf("(select %s %s)", v.T, i.T), Typ: typ, Sort: es}
 	}
@@ -1024,4 +1060,35 @@ func bvTypeOfSort(s string) types.Type {
 		return types.Typ[types.Uint32]
 	}
 	return types.Typ[types.Int]
+}
+
+// singleValueOf returns the only non-constant SSA value bound to a variable by DebugRefs, if unique.
+func (e *Enc) singleValueOf(obj types.Object) ssa.Value {
+	var found ssa.Value
+	for _, b := range e.fn.Blocks {
+		for _, ins := range b.Instrs {
+			dr, ok := ins.(*ssa.DebugRef)
+			if !ok || dr.IsAddr || dr.Object() != obj {
+				continue
+			}
+			if _, isC := dr.X.(*ssa.Const); isC {
+				continue
+			}
+			if found != nil && found != dr.X {
+				return nil
+			}
+			found = dr.X
+		}
+	}
+	return found
+}
+
+func (e *Enc) dominatesPoint(v ssa.Value, b *ssa.BasicBlock) bool {
+	switch v := v.(type) {
+	case *ssa.Parameter, *ssa.FreeVar:
+		return true
+	case ssa.Instruction:
+		return v.Block() == b || v.Block().Dominates(b)
+	}
+	return false
 }
